@@ -112,6 +112,14 @@ class Unit:
         return '%s :: %s' % (self.file, self.path)
 
 
+def code_sha(text):
+    """sha256 of the code with comments removed and whitespace normalised: the text hash used for `assumed` functions and the
+    evidence must not change when only a comment or the layout changes"""
+    t = re.sub(r'//[^\n]*', '', text)
+    t = re.sub(r'/\*.*?\*/', '', t, flags=re.S)
+    return hashlib.sha256(' '.join(t.split()).encode()).hexdigest()
+
+
 def parse_props(arg):
     """'<path> props=C01,C02 assumed' -> (path, [props], flags)"""
     flags = set()
@@ -233,7 +241,7 @@ def annotate_file(src, fc, relfile, uid_start=0):
     located.sort(key=lambda x: -x[0])
     for a, b, u in located:
         text = src[a:b]
-        u.orig_sha = hashlib.sha256(text.encode()).hexdigest()
+        u.orig_sha = code_sha(text)
         u.orig_lines = (src.count('\n', 0, a) + 1, src.count('\n', 0, b) + 1)
         new = text
         for rule, rx, tmpl, lineno in u.rewrites:
@@ -405,7 +413,7 @@ def annotate_file(src, fc, relfile, uid_start=0):
                     # TRAIT's contract, assumed (external_body) — recorded as an assumption
                     add(sib.kw, '#[verifier::external_body] ')
                     assumed_sibs.append({'name': sib.name, 'ident': '%s :: %s :: %s' % (relfile, parent.key(), sib.name),
-                                         'sha256': hashlib.sha256(src[sib.start:sib.end].encode()).hexdigest()})
+                                         'sha256': code_sha(src[sib.start:sib.end])})
                 else:
                     add(sib.kw, '#[verifier::external] ')
                 n_ext += 1
